@@ -63,7 +63,8 @@ def cases(tier, seed, args):
                             K=int(rng.integers(2, 4)), D=int(rng.integers(2, 4)), N=int(rng.integers(10, 20)),
                             iterations=int(rng.integers(1, 4)), seed=int(rng.integers(1 << 30)),
                             covariance_type=['full', 'diagonal', 'spherical'][(i // 5) % 3],
-                            singleton_init=bool(i % 4 == 3), degenerate_slice=bool(i % 6 == 5)))
+                            singleton_init=bool(i % 4 == 3), degenerate_slice=bool(i % 6 == 5),
+                            covariance_norm=['eigenvalue', 'trace', 'none'][(i // 5) % 3], rank_deficient=bool((i // 5) % 2)))
             if out[-1]['singleton_init'] and kind == 'cacgmm':
                 out[-1]['L'] = [2, 3] if i % 8 == 7 else [int(rng.integers(2, 4)), int(rng.integers(2, 4))]
         for i in range(3 if q else 12):
@@ -243,6 +244,15 @@ def _stack_mm(case):
     opts = dict(weight_constant_axis=(-1,))
     if kind == 'gmm':
         opts['covariance_type'] = case['covariance_type']
+    if kind == 'cacgmm' and case.get('covariance_norm') is not None:
+        opts['covariance_norm'] = {'eigenvalue': 'eigenvalue', 'trace': 'trace', 'none': False}[case['covariance_norm']]
+    if case.get('rank_deficient') and kind == 'cacgmm':
+        # one slice lives in a subspace (rank-deficient scatter: the eigenvalue floor becomes active there), the others
+        # have a different scale of their largest eigenvalue
+        idx = tuple(0 for _ in L)
+        data['y'][idx][..., -1] = 0
+        for j, ix in enumerate(np.ndindex(*L)):
+            data['y'][ix] = data['y'][ix] * (1.0 + 0.5 * j)
     init_arg = init
     if case.get('singleton_init') and kind == 'cacgmm' and len(L) >= 1:
         # singleton leading axes of the initial affiliation behave as if repeated
@@ -259,6 +269,8 @@ def _stack_mm(case):
         ps, _ = call(ml.predict, kind, ms, data)
     idxs = list(np.ndindex(*L))
     rng.shuffle(idxs)
+    first = tuple(0 for _ in L)
+    idxs = [first] + [i for i in idxs if i != first]       # the special (degenerate / rank-deficient) slice is always compared
     for idx in idxs[:3]:
         d1 = {k: v[idx] for k, v in data.items()}
         m1, e1 = call(ml.fit, kind, d1, np.ascontiguousarray(init[idx]), case['iterations'], opts)
@@ -292,6 +304,12 @@ def _stack_dist(case):
     kw = {}
     if dist.startswith('gauss'):
         kw['covariance_type'] = dist.split('_')[1]
+    if dist == 'cacg':
+        kw['covariance_norm'] = ['eigenvalue', 'trace', False][case['seed'] % 3]
+        kw['iterations'] = 1 + case['seed'] % 3
+        if case['seed'] % 2:
+            y[tuple(0 for _ in L)][..., -1] = 0          # rank-deficient slice
+            y = y * (1.0 + np.arange(int(np.prod(L))).reshape(*L, 1, 1))
 
     def fit(yy, ss):
         k2 = dict(kw)
@@ -307,6 +325,8 @@ def _stack_dist(case):
         ls, el = call(ms.log_pdf, yq)
     idxs = list(np.ndindex(*L))
     rng.shuffle(idxs)
+    first = tuple(0 for _ in L)
+    idxs = [first] + [i for i in idxs if i != first]
     for idx in idxs[:3]:
         m1, e1 = call(fit, y[idx], None if sal is None else sal[idx])
         key = f'stackd:{case["seed"]}:{idx}'
